@@ -150,6 +150,17 @@ def spell_href(sp, h, form):
     return ('url', up, pre, post, q, h)
 
 
+NAMES = ['nm', 'my sheet', 'a"b', "it's", '{', ';', '/*x*/', 'ü', '', '@import']
+
+
+def spell_name_opt(sp, p=0.25):
+    """the optional name of @media / @import (part of the abstract sheet): (quote, text, gap after it) | None"""
+    r = sp.rng
+    if r.random() >= p:
+        return None
+    return (r.choice(['dq', 'sq']) if sp.level >= 3 else 'dq', r.choice(NAMES), sp.gap())
+
+
 def spell_page_block(sp, inner, decls, margins):
     r = sp.rng
     blk = spell_block(sp, inner, decls)
@@ -172,8 +183,8 @@ def spell_rule(sp, inner, r):
     if k == 'unknown':
         return ('unknown', spell_unknown(sp, inner, r), sp.wgap())
     if k == 'media':
-        return ('media', sp.mask('media', True), sp.gap(need=True), opaque(G.r_mqs(inner, r[1])), sp.gap(), sp.wgap(),
-                [spell_rule(sp, inner, x) for x in r[2]], sp.wgap())
+        return ('media', sp.mask('media', True), sp.gap(need=True), opaque(G.r_mqs(inner, r[1])), sp.gap(),
+                spell_name_opt(sp), sp.wgap(), [spell_rule(sp, inner, x) for x in r[2]], sp.wgap())
     if k == 'fontface':
         return ('fontface', sp.mask('font-face', True), sp.gap(), spell_block(sp, inner, r[1]), sp.wgap())
     if k == 'page':
@@ -195,7 +206,7 @@ def spell_pre(sp, inner, r):
         _, href, form, qs = r
         mq = (opaque(G.r_mqs(inner, qs)), sp.gap()) if qs else None
         return ('import', sp.mask('import', True), sp.gap(need=True), spell_href(sp, href, form),
-                sp.gap(need=bool(mq)), mq, sp.wgap())
+                sp.gap(need=bool(mq)), mq, spell_name_opt(sp), sp.wgap())
     if k == 'namespace':
         _, pre, uri, asurl = r
         pfx = (pre, sp.gap(need=True)) if pre else None
@@ -245,7 +256,7 @@ def wellformed(ss):
         if k == 'unknown':
             return is_core(r[1])
         if k == 'media':
-            return is_core(r[3]) and all(rule_ok(x) for x in r[6])
+            return is_core(r[3]) and all(rule_ok(x) for x in r[7])
         if k == 'fontface':
             return block_ok(r[3])
         if k == 'page':
@@ -318,6 +329,10 @@ def t_href(h):
     return word + '(' + pre + (t_quote(q, txt) if q else txt) + post + ')'
 
 
+def t_name(nm):
+    return (t_quote(nm[0], nm[1]) + t_gap(nm[2])) if nm else ''
+
+
 def t_page_item(it):
     if it[0] == 'margin':
         _, n, m, g, blk, w = it
@@ -348,8 +363,8 @@ def t_rule(r):
     if k == 'unknown':
         return r[1]['text'] + t_wgap(r[2])
     if k == 'media':
-        _, m, g1, mq, g2, lead, rules, w = r
-        return '@' + spell_name('media', m) + t_gap(g1) + mq['text'] + t_gap(g2) + '{' + t_wgap(lead) + \
+        _, m, g1, mq, g2, nm, lead, rules, w = r
+        return '@' + spell_name('media', m) + t_gap(g1) + mq['text'] + t_gap(g2) + t_name(nm) + '{' + t_wgap(lead) + \
             ''.join(t_rule(x) for x in rules) + '}' + t_wgap(w)
     if k == 'fontface':
         _, m, g1, blk, w = r
@@ -365,9 +380,9 @@ def t_pre(r):
     if k == 'comment':
         return '/*' + r[1] + '*/' + t_wgap(r[2])
     if k == 'import':
-        _, m, g1, href, g2, mq, w = r
+        _, m, g1, href, g2, mq, nm, w = r
         return '@' + spell_name('import', m) + t_gap(g1) + t_href(href) + t_gap(g2) + \
-            ((mq[0]['text'] + t_gap(mq[1])) if mq else '') + ';' + t_wgap(w)
+            ((mq[0]['text'] + t_gap(mq[1])) if mq else '') + t_name(nm) + ';' + t_wgap(w)
     if k == 'namespace':
         _, m, g1, pfx, uri, g2, w = r
         return '@' + spell_name('namespace', m) + t_gap(g1) + ((pfx[0] + t_gap(pfx[1])) if pfx else '') + \
@@ -451,6 +466,10 @@ def x_opt(v):
     return enc(v) if v is not None else 'none'
 
 
+def x_name(nm):
+    return '( %s %s %s )' % (nm[0], enc(nm[1]), x_gap(nm[2])) if nm else 'none'
+
+
 def x_page_item(it):
     if it[0] == 'margin':
         _, n, m, g, blk, w = it
@@ -472,9 +491,9 @@ def x_rule(r):
     if k == 'unknown':
         return '( unknown %s %s )' % (x_toks(r[1]), x_wgap(r[2]))
     if k == 'media':
-        _, m, g1, mq, g2, lead, rules, w = r
-        return '( media %s %s %s %s %s ( %s ) %s )' % (x_mask(m), x_gap(g1), x_toks(mq), x_gap(g2), x_wgap(lead),
-                                                     ' '.join(x_rule(x) for x in rules), x_wgap(w))
+        _, m, g1, mq, g2, nm, lead, rules, w = r
+        return '( media %s %s %s %s %s %s ( %s ) %s )' % (x_mask(m), x_gap(g1), x_toks(mq), x_gap(g2), x_name(nm),
+                                                        x_wgap(lead), ' '.join(x_rule(x) for x in rules), x_wgap(w))
     if k == 'fontface':
         _, m, g1, blk, w = r
         return '( fontface %s %s %s %s )' % (x_mask(m), x_gap(g1), x_block(blk), x_wgap(w))
@@ -490,9 +509,10 @@ def x_pre(r):
     if k == 'comment':
         return '( comment %s %s )' % (enc(r[1]), x_wgap(r[2]))
     if k == 'import':
-        _, m, g1, href, g2, mq, w = r
+        _, m, g1, href, g2, mq, nm, w = r
         xm = '( %s %s )' % (x_toks(mq[0]), x_gap(mq[1])) if mq else 'none'
-        return '( import %s %s %s %s %s %s )' % (x_mask(m), x_gap(g1), x_href(href), x_gap(g2), xm, x_wgap(w))
+        return '( import %s %s %s %s %s %s %s )' % (x_mask(m), x_gap(g1), x_href(href), x_gap(g2), xm, x_name(nm),
+                                                    x_wgap(w))
     if k == 'namespace':
         _, m, g1, pfx, uri, g2, w = r
         xp = '( %s %s )' % (enc(pfx[0]), x_gap(pfx[1])) if pfx else 'none'
@@ -558,7 +578,8 @@ def e_rule(r):
     if k == 'unknown':
         return {'k': 'unknown', 'toks': j_toks(r[1], True)}
     if k == 'media':
-        return {'k': 'media', 'mq': j_toks(r[3]), 'name': None, 'rules': [e_rule(x) for x in r[6]]}
+        return {'k': 'media', 'mq': j_toks(r[3]), 'name': enc(r[5][1]) if (r[5] and r[5][1]) else None,
+                'rules': [e_rule(x) for x in r[7]]}
     if k == 'fontface':
         return {'k': 'fontface', 'items': e_block(r[3])}
     if k == 'page':
@@ -575,7 +596,8 @@ def e_pre(r):
     if k == 'comment':
         return {'k': 'comment', 'body': enc(r[1])}
     if k == 'import':
-        return {'k': 'import', 'href': enc(r[3][-1]), 'mq': j_toks(r[5][0]) if r[5] else None, 'name': None}
+        return {'k': 'import', 'href': enc(r[3][-1]), 'mq': j_toks(r[5][0]) if r[5] else None,
+                'name': enc(r[6][1]) if (r[6] and r[6][1]) else None}
     if k == 'namespace':
         return {'k': 'namespace', 'pfx': enc(r[3][0] if r[3] else ''), 'uri': enc(r[4][-1])}
     raise ValueError(k)
